@@ -111,6 +111,18 @@ ObsViews    == \A o \in C!Live : HasObs(Prev, o) =>                      \* cont
                    /\ {vs[k][1] : k \in 1..Len(vs)} = heap[o].ann
                    /\ \A k \in 1..Len(vs) : /\ ToSet(vs[k][2]) = C!UnitsOf(heap[o], vs[k][1])
                                               /\ IsStrict(vs[k][2], C!ULess)
+\* derived observables: num_annotators, max_num_annotations_per_annotator, category_weights (share of each label in use)
+CountLabel(c, lab) == Cardinality({u \in c.units : u[4] = lab})
+MaxPer(c) == IF c.ann = {} THEN 0 ELSE Max({Cardinality(C!UnitsOf(c, a)) : a \in c.ann})
+ObsDerived == \A o \in C!Live : HasObs(Prev, o) =>
+    LET d == ObsOf(o).derived c == heap[o] n == Cardinality(c.units) IN
+    /\ d.nann = Cardinality(c.ann)
+    /\ d.maxper = MaxPer(c)
+    /\ d.wok # 2                                                              \* category_weights must not fail on labelled units
+    /\ d.wok = 1 => /\ {d.weights[k][1] : k \in 1..Len(d.weights)} = C!LabelsInUse(c)
+                    /\ \A k \in 1..Len(d.weights) :
+                           LET diff == d.weights[k][2] * n - CountLabel(c, d.weights[k][1]) * 1000000
+                           IN diff <= n /\ -diff <= n
 \* every dissimilarity (or other auxiliary input) still is exactly what it was when it was created
 ObsAux == \A k \in 1..Len(Prev.aux) : \A j \in 1..Len(aux) : aux[j][1] = Prev.aux[k][1] => aux[j][2] = Prev.aux[k][2]
 ObsDerivedWellFormed == Prev.op = "derive" /\ out = "ok" => C!WellFormed(heap[Prev.args[1]])
@@ -137,4 +149,5 @@ Verdicts ==
         /\ Judge("ObsViews", ObsViews)
         /\ Judge("ObsDerivedWellFormed", ObsDerivedWellFormed)
         /\ Judge("ObsAux", ObsAux)
+        /\ Judge("ObsDerived", ObsDerived)
 =============================================================================
